@@ -166,6 +166,7 @@ class FormulaMaterializer(metaclass=FormulaMaterializerMeta):
 
         self.factor_cache: dict[str, EvaluatedFactor] = {}
         self.encoded_cache: dict[Union[str, tuple[str, bool]], Any] = {}
+        self.encoder_state_cache: dict[str, tuple[Factor.Kind, dict[str, Any]]] = {}
 
     def _init(self) -> None:
         pass  # pragma: no cover
@@ -693,6 +694,16 @@ class FormulaMaterializer(metaclass=FormulaMaterializerMeta):
             elif (factor.expr, reduced_rank) in self.encoded_cache:
                 encoded = self.encoded_cache[(factor.expr, reduced_rank)]
             else:
+                encoded = None
+
+            if encoded is not None:
+                # The encoding was cached while building another part of a
+                # structured spec; this spec must record its state too.
+                if factor.expr not in spec.encoder_state:
+                    spec.encoder_state[factor.expr] = copy.deepcopy(
+                        self.encoder_state_cache[factor.expr]
+                    )
+            else:
 
                 def map_dict(f: Any) -> Any:
                     """
@@ -783,6 +794,7 @@ class FormulaMaterializer(metaclass=FormulaMaterializerMeta):
                             factor
                         )  # pragma: no cover; it is not currently possible to reach this sentinel
                 spec.encoder_state[factor.expr] = (factor.metadata.kind, encoder_state)
+                self.encoder_state_cache[factor.expr] = spec.encoder_state[factor.expr]
 
                 # Only encode once for encodings where we can just drop a field
                 # later on below.
